@@ -15,6 +15,11 @@ def load_units():
         m = importlib.util.module_from_spec(spec)
         spec.loader.exec_module(m)
         units += m.UNITS
+    # deeper variants for the thorough tier: same harness, larger bound
+    import dataclasses
+    for u in list(units):
+        if u.deep:
+            units.append(dataclasses.replace(u, name=u.name + "_deep", tier="thorough", deep=None, **u.deep))
     return units
 
 
